@@ -60,7 +60,11 @@ Obligations (what a VIOLATION names)
    [simple].appends_in_place_through_write_simple, [simple].no_summary_files_for_a_single_file
    (column check before any effect: contracts/c18_validate.py - not repeated)
  write.dispatch.  scheme_and_append_select_exactly_one_writer, fresh_multi_file_write_gets_new_metadata_and_writes_summary,
-   append_goes_through_the_handle_with_summary
+   append_goes_through_the_handle_with_summary,
+   append_requires_the_existing_dataset_to_open   append=True and ParquetFile(filename, open_with) raises (FileNotFoundError | ValueError | OSError:
+                                                  the handler forks these outcomes, the engine runs try/except by exception name) => write()
+                                                  raises, with NO I/O effect; never falls back to a fresh write  (seed C19-m8)
+   append_flag_is_not_reassigned                  no binding of `append` anywhere in write() (ast): the flag is only tested
  thrift_object_model.  copy / __copy__ / __setattr__ / __getattr__ of cencoding.ThriftObject have the text the heap model encodes
 Findings: contracts/findings.jsonl; native triage: tools/partf_native.py; probe: tools/partf_probe.py; canaries: canaries/C02parts.json.
 """
@@ -1592,14 +1596,26 @@ def run_write_dispatch(ctx, funcs, timeout):
         return [(p, Tup([G["fs"], G["filename"], G["open_with"], G["mkdirs"]]))]
 
     def h_parquet_file(eng, p, args, kw, node):
+        """the handle of the existing dataset either opens, or construction raises: FileNotFoundError (nothing there) / ValueError (what an
+        I/O failure while READING _metadata through a plain-function open_with becomes, api.py __init__) / OSError"""
         ev(p, "ParquetFile", list(args), dict(kw))
-        return [(p, Custom(PF()))]
+        outs = []
+        for exc in ("FileNotFoundError", "ValueError", "OSError"):
+            r = p.fork()
+            r.ctl = ("raise", exc)
+            r.trace.append(("raise", node.lineno))
+            r.ghost["handle_open_failed"] = exc
+            outs.append((r, Opaque(("raised", exc))))
+        outs.append((p, Custom(PF())))
+        return outs
 
     def h_make_metadata(eng, p, args, kw, node):
         ev(p, "make_metadata", list(args), dict(kw))
         return [(p, new_fmd)]
     handlers = {"write_multi": rec("write_multi"), "write_simple": rec("write_simple"), "overwrite": rec("overwrite"), "get_fs": h_get_fs,
                 "ParquetFile": h_parquet_file, "make_metadata": h_make_metadata}
+    for nm in ("mkdirs", "default_mkdirs", "open_with", "default_open", "open", "os.makedirs", "os.remove", "shutil.rmtree"):
+        handlers[nm] = rec("io:" + nm)
     eng = Engine(funcs=funcs, handlers=handlers, opaque_calls=True)
     p = Path()
     p.pc += [0 <= app, app <= 2]
@@ -1655,6 +1671,35 @@ def run_write_dispatch(ctx, funcs, timeout):
             res.add("write.dispatch.append_goes_through_the_handle_with_summary", PROVED if ok else REFUTED,
                     None if ok else {"args": [show(x) for x in a], "kw": {kk: show(v) for kk, v in k.items()}}, 0.0, "trace",
                     "ParquetFile(filename, open_with).write_row_groups(data, row_group_offsets, sort_key=None, sort_pnames=False, write_fmd=True, ...)")
+    # ---- an append needs the existing dataset: a failure to open it is the caller's to see (C19 / C07 / C18) ----
+    n_fail = 0
+    for q in outs:
+        exc = q.ghost.get("handle_open_failed")
+        if exc is None:
+            continue
+        n_fail += 1
+        eff = [e[0] for e in q.ghost.get("ev", []) if e[0] in ("write_multi", "write_simple", "overwrite", "pf.write_row_groups") or e[0].startswith("io:")]
+        ok = q.ctl[0] == "raise" and not eff
+        res.add("write.dispatch.append_requires_the_existing_dataset_to_open", PROVED if ok else REFUTED,
+                None if ok else {"constructing_the_handle_raised": exc, "write_then": "returns normally" if q.ctl[0] == "ret" else "raises " + str(q.ctl[1]),
+                                 "effects_after_the_failure": eff}, 0.0, "trace",
+                "append=True: if ParquetFile(filename, open_with=...) raises (no such dataset, or an I/O failure while reading _metadata), write() "
+                "raises too - the exception is not handled inside write() - and nothing was created, opened for writing or written; no path "
+                "goes on to write_simple / write_multi with append=False (which would overwrite part.0.parquet and _metadata)")
+    if n_fail == 0:
+        res.add("write.dispatch.append_requires_the_existing_dataset_to_open", UNKNOWN, None, 0.0, "trace",
+                "no path constructs the handle of the existing dataset through ParquetFile(...)")
+    wtree = funcs["write"].tree
+    stores = sorted({f"L{n.lineno}: " + ast.unparse(st).split("\n")[0][:80] for st in ast.walk(wtree) if isinstance(st, ast.stmt)
+                     for n in ast.iter_child_nodes(st) for n in ast.walk(n)
+                     if isinstance(n, ast.Name) and n.id == "append" and isinstance(n.ctx, (ast.Store, ast.Del))
+                     and not isinstance(st, (ast.FunctionDef, ast.If, ast.For, ast.While, ast.With, ast.Try))} |
+                    {f"L{st.lineno}: " + ast.unparse(st).split("\n")[0][:80] for st in ast.walk(wtree) if isinstance(st, (ast.For, ast.With))
+                     for n in ast.walk(st.target if isinstance(st, ast.For) else ast.Tuple([i.optional_vars for i in st.items if i.optional_vars], ast.Store()))
+                     if isinstance(n, ast.Name) and n.id == "append"})
+    res.add("write.dispatch.append_flag_is_not_reassigned", PROVED if not stores else REFUTED, None if not stores else {"assignments": stores}, 0.0,
+            "ast", "the caller's `append` (False | True | 'overwrite') decides the branch: write() never assigns to it (the real source has NO "
+            "normalisation of this flag: it is only tested)")
     if not n_multi or not n_app:
         ctx.engine_error("write dispatch: no returning path reaches write_multi / pf.write_row_groups")
     ctx.vacuity["covers"] += n_multi + n_app
